@@ -14,4 +14,6 @@ class jaqal_gates:
         "measure_all": BusyGateDefinition("measure_all"),
         "GP": GateDefinition("GP", [Parameter("a", ParamType.QUBIT)], ideal_unitary=_x),
         "XA": GateDefinition("XA", [Parameter("a", ParamType.QUBIT)], ideal_unitary=_x),
+        # SP has the SAME signature in both modules but another unitary (X in moda, Z in modb)
+        "SP": GateDefinition("SP", [Parameter("a", ParamType.QUBIT)], ideal_unitary=_x),
     }
